@@ -429,3 +429,48 @@ def random_ut(rng):
     if rng.chance(1, 2):
         t -= t % 60
     return t
+
+
+# ---------------------------------------------------------------- compare_struct
+
+def value_order(a, b):
+    """the order of the abstract values of two leaves: -1 / 0 / 1"""
+    from fractions import Fraction
+    ka = (a["t"], Fraction(int(a["frac"] or "0"), 10 ** len(a["frac"])))
+    kb = (b["t"], Fraction(int(b["frac"] or "0"), 10 ** len(b["frac"])))
+    return (ka > kb) - (ka < kb)
+
+
+def c_fraction(text):
+    """(fvalue, fdigits) as asn_GT2time_frac reads them from a text with seconds"""
+    fv = fd = 0
+    if len(text) > 14 and text[14] in ".,":
+        for ch in text[15:]:
+            if not ch.isdigit():
+                break
+            if fv < 214748364:
+                fv, fd = fv * 10 + int(ch), fd + 1
+    return fv, fd
+
+
+def unreadable(lf):
+    return lf["t"] == -1 or lf["form"].endswith(("/hourfrac", "/minfrac"))
+
+
+def tree_compare(a, b):
+    """what GeneralizedTime_compare / UTCTime_compare of the unchanged tree answer for two readable leaves:
+    instants first; then, GeneralizedTime only, the fractions — by value when the digit counts agree, 'no fraction' below
+    any fraction, and otherwise (double)value / NUMBER OF DIGITS (sic)"""
+    if a["t"] != b["t"]:
+        return (a["t"] > b["t"]) - (a["t"] < b["t"])
+    if a["kind"] == "ut":
+        return 0
+    (av, ad), (bv, bd) = c_fraction(a["text"]), c_fraction(b["text"])
+    if ad == bd:
+        return (av > bv) - (av < bv)
+    if ad == 0:
+        return -1
+    if bd == 0:
+        return 1
+    x, y = av / ad, bv / bd
+    return (x > y) - (x < y)
